@@ -248,7 +248,16 @@ func (c *Ctx) parallel(n, workers int, fn func(i int), clean bool) {
 		go func() {
 			defer wg.Done()
 			for i := range ch {
-				fn(i)
+				func() {
+					defer func() {
+						if r := recover(); r != nil {
+							buf := make([]byte, 1<<14)
+							n := runtime.Stack(buf, false)
+							c.Inconclusive(fmt.Sprintf("harness panic in case %d: %v\n%s", i, r, buf[:n]))
+						}
+					}()
+					fn(i)
+				}()
 				if clean {
 					_ = os.RemoveAll(filepath.Join(c.Scratch, fmt.Sprintf("case%d", i)))
 				}
